@@ -45,8 +45,8 @@ def _add_sibling_radials(rng, glyphs):
     c = (x + 0.4 * w, y + 0.4 * h)
     r = 0.3 * m
     k = rng.choice([0.5, 0.4, 0.6])
-    stops = e2e._stops(rng)
     spread = rng.choice(["pad", "reflect"])
+    stops = e2e._stops(rng, spread)
     for gt in ((1, 0, 0, k, 0, y * (1 - k)), (k, 0, 0, 1, x * (1 - k), 0)):
         cx, cy = gt[0] * c[0] + gt[4], gt[3] * c[1] + gt[5]
         hx, hy = 0.8 * r * gt[0], 0.8 * r * gt[3]
@@ -125,6 +125,14 @@ def _colr_eval(font):
     return lambda gi, name, q: ev.glyph_color(name, q)
 
 
+def _f20_witness():
+    # tests/radial_gradient_rect.svg in spirit: repeat, stops at 5 % and 75 % only
+    stops = [(0.05, (255, 0, 255), 1.0), (0.75, (255, 165, 0), 1.0)]
+    fill = e2e.Linear((10, 0), (40, 0), stops, "userSpaceOnUse", None, "repeat")
+    g = e2e.GlyphSpec((0, 0, 100, 100), [e2e.Shape([(5, 20), (95, 20), (95, 80), (5, 80)], fill, 1.0)], (0xE000,))
+    return {"glyphs": [g], "overrides": dict(color_format="glyf_colr_1", output_file="out.ttf")}
+
+
 @contract("nanoemoji.write_font._generate_color_font", props=["C01", "C05", "C15", "C16", "C06"])
 class e2e_colrv1_picture:
     bounded_only = True
@@ -132,6 +140,7 @@ class e2e_colrv1_picture:
     native_call = _build
     n_quick = 40
     n_thorough = 600
+    known_witnesses = {"F20": _f20_witness}
     ensures = {
         # C01: the COLRv1 glyph paints the picture of its source placed in the em box
         "same-picture-at-sample-points": lambda glyphs, result: _picture_mismatches(glyphs, result, _colr_eval) == [],
@@ -327,7 +336,7 @@ def _add_same_gradient_in_other_documents(rng, glyphs):
 
 def _gen_otsvg(rng, i=None):
     # cases 0..5 of every 8 hold one fixed scenario each (on a picosvg build); the rest is random
-    forced = {0: "donor-same", 1: "donor-cross", 2: "grad-docs", 3: "sibling", 4: "prefix", 5: "notdef-source"}.get(i % 8) if i is not None else None
+    forced = {0: "donor-same", 1: "donor-cross", 2: "grad-docs", 3: "sibling", 4: "prefix", 5: "notdef-source", 6: "dotted-names"}.get(i % 8) if i is not None else None
     fmt = rng.choice(["picosvg", "picosvg", "picosvgz", "untouchedsvg", "untouchedsvgz"])
     if forced == "notdef-source":
         fmt = rng.choice(["untouchedsvg", "picosvg", "untouchedsvgz"])
@@ -351,6 +360,15 @@ def _gen_otsvg(rng, i=None):
         nd = e2e.GlyphSpec(glyphs[0].viewbox, [e2e.Shape(e2e._poly(rng, glyphs[0].viewbox), e2e.Solid(e2e._rgb(rng)), 1.0)], ())
         nd.name = ".notdef"
         glyphs.insert(rng.randint(1, len(glyphs)), nd)
+    if forced == "dotted-names" and len(glyphs) >= 2:
+        # glyph names given by the glyph map may contain dots ("flag" / "flag.alt"); the names
+        # of shared paths are "<glyph name>.<n>", so the owner of a path is everything before
+        # the LAST dot -- and here the two glyphs share a shape
+        glyphs[0].name, glyphs[1].name = rng.choice([("flag.alt", "flag"), ("flag", "flag.alt"), ("a.b.c", "zed")])
+        if glyphs[0].viewbox == glyphs[1].viewbox:
+            sh = next((x for x in e2e.all_shapes(glyphs[0]) if isinstance(x.fill, e2e.Solid)), None)
+            if sh is not None:
+                glyphs[1].items.append(e2e.Shape([(px + 3, py + 2) for px, py in sh.pts], e2e.Solid(e2e._rgb(rng)), 1.0))
     if forced == "prefix" or rng.random() < 0.3:
         # glyph names that are prefixes of one another (a sequence and its leading
         # codepoint), in either input order
@@ -500,8 +518,14 @@ def _colr_to_svg_mismatch(glyphs, result):
                 continue
             if isinstance(got, str) or not e2e.color_close(want, got):
                 if not isinstance(got, str):
-                    delta = (1.0 + 0.5 * e2e.gradient_t_at(g, p)) / s
-                    if delta < margin and e2e.within_envelope(g, p, got, delta):
+                    # the reference of C13 is the paint graph (not the source it was built
+                    # from): what the graph paints at nearby points absorbs the rounding
+                    # (+0.3: the generated SVG is rounded to 3 decimals; under a strongly
+                    # non-uniform reuse transform -- gradientTransform entries ~0.14 x centre
+                    # coordinates ~400 -- that moves a gradient by up to ~0.3 viewBox units,
+                    # the same allowance as for OT-SVG output)
+                    delta = (1.0 + 0.5 * e2e.gradient_t_at(g, p)) / s + 0.3
+                    if delta < margin + 0.3 and e2e.within_envelope(g, p, got, delta, color_at=lambda p_: ev.glyph_color(name, e2e.ap(src_F, p_))):
                         continue
                 bad.append((name, p, want, got))
     return bad
@@ -542,12 +566,13 @@ class e2e_colr_to_svg:
     native_call = _build
     n_quick = 30
     n_thorough = 400
+    known_witnesses = {"F21": _f20_witness}
     ensures = {
         "svg-renders-what-the-paint-graph-renders": lambda glyphs, result: _colr_to_svg_mismatch(glyphs, result) == [],
     }
 
 
-def _gen_colr_glyph_refs(rng):
+def _gen_colr_glyph_refs(rng, i=0):
     """solid-filled COLRv1 glyphs; the last one is then re-pointed at another colour glyph
     through transform paints (a third-party-style paint graph: PaintColrGlyph under
     PaintTranslate / PaintScale / PaintRotate, also inside a layer list)"""
@@ -555,7 +580,10 @@ def _gen_colr_glyph_refs(rng):
     glyphs = e2e.gen_glyphset(rng, n_glyphs=rng.randint(2, 3), gradients=rng.random() < 0.4, groups=False, reuse=False)
     kinds = [rng.choice(["translate", "scale", "rotate", "scale-around", "translate-translate"]) for _ in range(rng.randint(1, 2))]
     params = [(rng.choice([-120, 60, 200]), rng.choice([-80, 40, 150]), rng.choice([0.5, 0.75, 1.5]), rng.choice([0.5, 1.25]), rng.choice([30, 90, -45])) for _ in kinds]
-    return {"glyphs": glyphs, "overrides": over_, "refs": {"kinds": kinds, "params": params, "in_layers": rng.random() < 0.5}}
+    # every third case: the whole graph is additionally clipped by an outline glyph
+    # (PaintGlyph whose child is a paint graph, not a fill), itself possibly under a translate
+    clip = {"under": rng.choice([None, (40, -30), (-60, 20)]), "which": rng.randint(0, 3)} if i % 3 == 2 else None
+    return {"glyphs": glyphs, "overrides": over_, "refs": {"kinds": kinds, "params": params, "in_layers": rng.random() < 0.5, "clip": clip}}
 
 
 def _build_with_refs(glyphs, overrides, refs):
@@ -593,6 +621,25 @@ def _build_with_refs(glyphs, overrides, refs):
         table.LayerList.Paint.extend([paint, rec.Paint])
         table.LayerList.LayerCount = len(table.LayerList.Paint)
         paint = P(F.PaintColrLayers, FirstLayerIndex=first, NumLayers=2)
+    if refs.get("clip"):
+        outlines = []
+
+        def walk(p_):
+            if p_.Format == F.PaintGlyph:
+                outlines.append(p_.Glyph)
+            if p_.Format == F.PaintColrLayers:
+                for q_ in table.LayerList.Paint[p_.FirstLayerIndex : p_.FirstLayerIndex + p_.NumLayers]:
+                    walk(q_)
+            for attr in ("Paint", "SourcePaint", "BackdropPaint"):
+                if getattr(p_, attr, None) is not None:
+                    walk(getattr(p_, attr))
+
+        for x in table.BaseGlyphList.BaseGlyphPaintRecord:
+            walk(x.Paint)
+        outlines = sorted(set(outlines))
+        paint = P(F.PaintGlyph, Glyph=outlines[refs["clip"]["which"] % len(outlines)], Paint=paint)
+        if refs["clip"]["under"]:
+            paint = P(F.PaintTranslate, dx=refs["clip"]["under"][0], dy=refs["clip"]["under"][1], Paint=paint)
     rec.Paint = paint
     if getattr(table, "ClipList", None) and target in table.ClipList.clips:
         del table.ClipList.clips[target]
